@@ -135,6 +135,33 @@ def jobs_for(tier, rnd):
                 parts = (decls + [body, 'X = "a" | "ba"']) if where == 'before' else ([body, 'X = "a" | "ba"'] + decls)
                 jobs.append((gid, '\n'.join(parts) + '\n', TXN, {'ign': 'nullable', 'where': where, 'klass': False, 'role': 'ignore-nullable-pattern'}))
                 gid += 1
+    # binary grammars: byte literals (0xNN), bytes string literals and bytes regular expressions are literals too - each
+    # skips the ignorable bytes after it; with the explicit twin
+    BY = ('byte', 0x61)
+    bleaves = [BY, ('lit', 'b'), ('rx', '[ab]'), ('byte', 0x62)]
+    bexprs = []
+    for x in bleaves:
+        bexprs += [x, ('opt', x), ('rep', x, None, None), ('rep', x, 1, 2), ('expect', x)]
+        for y in bleaves:
+            bexprs += [('seq', x, y), ('alt', ('seq', x, y), y), ('left', x, y), ('right', x, y), ('sep', x, y, (True, False, True, False)),
+                       ('seq', ('expect', x), y), ('seq', ('rep', x, None, None), y)]
+    bexprs = [e for e in bexprs if G.well_formed(e, G.RULES_NULLABLE) and any(z[0] == 'byte' for z in walk(e))]
+    if tier == 'quick':
+        rnd.shuffle(bexprs)
+        bexprs = bexprs[:60]
+    TXB = G.texts('ab ', 4, extra=(' a b ', 'a  b', 'ab  ', '  ab', 'a b a', 'a  a  b'))
+    for e in bexprs:
+        for decl, pats in (('ignore b/[ ]+/', [('rx', '[ ]+')]), ('ignore Sp = 0x20', [('byte', 0x20)])):
+            for where in ('before', 'after'):
+                body = f'start = {G.render(e, "bytes")}'
+                d = (decl + '\n' + body + '\n') if where == 'before' else (body + '\n' + decl + '\n')
+                skip = ('skip',) + tuple(pats)
+                dx = 'start = ' + G.render(('right', skip, explicit(e, skip)), 'bytes') + '\n'
+                opts = {'ign': 'bytes', 'where': where, 'klass': False, 'bytes': True}
+                jobs.append((gid, d, TXB, dict(opts, role='ignore')))
+                jobs.append((gid + 1, dx, TXB, dict(opts, role='explicit')))
+                pairs[gid] = gid + 1
+                gid += 2
     return jobs, pairs
 
 
